@@ -88,6 +88,9 @@ type UserCfg struct {
 	ID, LoginName                                      string
 	Email, FullName, GivenName, Surname, Username, UID string
 	Custom                                             []CustomAttrCfg
+	// BigN > 0: the user additionally carries one custom attribute with BigN high-entropy values (group memberships of a
+	// large directory): responses for this user are tens of kilobytes, redirect URLs longer than many stacks like
+	BigN int `json:",omitempty"`
 }
 
 type WorldCfg struct {
@@ -104,6 +107,8 @@ type WorldCfg struct {
 	SharedSP    bool      `json:"sharedSP,omitempty"`   // storage hands out one shared *ServiceProvider per registration
 	NilUnknown  bool      `json:"nilUnknown,omitempty"` // storage flavour: an unknown entity is reported as (nil, nil) instead of an error
 	Presessions []Preseed `json:"presessions,omitempty"`
+	CtxAware    bool      `json:"ctxAware,omitempty"`   // storage flavour: a call whose context is done when it gets to run returns the context's error
+	TenantKeys  bool      `json:"tenantKeys,omitempty"` // storage flavour: signing keys are per tenant, found through the issuer value of the context
 	Shadow      bool      `json:"shadow,omitempty"` // compare every undisturbed reply with a re-execution on a fresh provider instance (shadow.go)
 }
 
@@ -138,6 +143,7 @@ type Style struct {
 	SelfClose  bool `json:"selfClose,omitempty"`  // use <a/> vs <a></a> for empty elements
 	EncodingP  int  `json:"encodingP,omitempty"`  // redirect: 0 no SAMLEncoding param, 1 explicit DEFLATE URI
 	BodyAndURL bool `json:"bodyAndURL,omitempty"` // POST with extra unrelated query parameters on the URL
+	Chunked    bool `json:"chunked,omitempty"`    // the body is sent with Transfer-Encoding: chunked (ContentLength unknown)
 }
 
 // Tamper is one in-flight manipulation by the network attacker, or one
